@@ -1425,6 +1425,20 @@ PTARGETS += [
     dict(ns="ChunkIt", file="iter/buffered/iter.rs", impl=r"Iterator for BufferedIter<'a, T>", fns=["next"], self_ty="BufferedIter", mutable=["next"],
          lets={"next": "Option Nat"}),
 ]
+# cloned() / copied() over the wrapper (an iterator of references): every function forwards to the wrapper's
+for (A, f, bf, big) in (("ClonedI", "iter/cloned.rs", "iter/buffered/cloned_buffered_chunk.rs", "ClonedBufferedChunk"),
+                        ("CopiedI", "iter/copied.rs", "iter/buffered/copied_buffered_chunk.rs", "CopiedBufferedChunk")):
+    short = A[:-1]
+    PTARGETS += [
+        dict(ns=A, file=f, impl=r"impl<'a, T, A> %s<'a, T, A>" % short, fns=["underlying_iter"], self_ty="AdaptSelfP"),
+        dict(ns=A, file=f, impl=r"AtomicIter<T> for %s" % short, fns=["counter", "progress_and_get_begin_idx", "get", "fetch_n", "early_exit"],
+             self_ty="AdaptSelfP", recv={"self.iter": "Iter"}),
+        dict(ns=A, file="iter/atomic_iter.rs", impl=r"trait AtomicIter<", fns=["fetch_one"], self_ty="AdaptSelfP"),
+        dict(ns=A, file=f, impl=r"ConcurrentIter for %s" % short, fns=["next_id_and_value", "next_chunk", "skip_to_end"], self_ty="AdaptSelfP",
+             recv={"self.iter": "Iter"}),
+        dict(ns="Buf" + A, file=bf, impl=r"BufferedChunk<T> for %s" % big, fns=["chunk_size", "pull"], self_ty="AdaptBufSelfP",
+             params={"iter": "AdaptSelfP"}, recv={"self.chunk": "BufIter", "iter": A}, mutable=["pull"]),
+    ]
 P_OUT = os.path.join(os.path.dirname(OUT), "ProtoIter.lean")
 
 
